@@ -6,7 +6,7 @@ from __future__ import annotations
 import ast
 import re
 
-from ..astutil import call_attr, calls_in, guard_facts, parent_map, resolved_guard_facts, unparse, walk_local, text_facts
+from ..astutil import call_attr, canon_locals, calls_in, guard_facts, parent_map, resolved_guard_facts, unparse, walk_local, text_facts
 from ..cfg import CFG
 from ..dataflow import reaching_defs, resolved_text
 from ..report import Finding, Report
@@ -59,7 +59,7 @@ def check_truncation(idx: Index, rep: Report) -> None:
         if kw.get("truncate_bits") == "True":
             r.ok(inst, f"{f.module.relpath}:{c.lineno} truncate_bits=True")
         else:
-            r.fail(inst, Finding("C14.R1", f.fq, f"untruncated:{unparse(c)[:60]}", f"`{unparse(c)[:80]}` builds an integer constant from a computed Python integer without truncate_bits=True: a result outside the type's range (e.g. shli 64, 2 : i8 = 256) raises VerifyException and the pass fails instead of folding to the wrapped value", f"{f.module.relpath}:{c.lineno}"))
+            r.fail(inst, Finding("C14.R1", f.fq, f"untruncated:{canon_locals(f.node, c)[:60]}", f"`{unparse(c)[:80]}` builds an integer constant from a computed Python integer without truncate_bits=True: a result outside the type's range (e.g. shli 64, 2 : i8 = 256) raises VerifyException and the pass fails instead of folding to the wrapped value", f"{f.module.relpath}:{c.lineno}"))
 
 
 def check_exceptions(idx: Index, rep: Report) -> None:
@@ -277,8 +277,11 @@ def check_fold_guards(idx: Index, rep: Report) -> None:
     ok = not rl or all(any("is_right_unit(" in t and p for t, p in resolved_guard_facts(f.node, cfg4, x)) for x in rl)
     (r.ok(f.fq + ":right-unit", f"{f.loc} `x op unit -> x`") if ok else r.fail(f.fq + ":right-unit", Finding("C14.R4", f.fq, "right-unit", "`return (self.lhs,)` must be guarded by is_right_unit(rhs)", f.loc)))
     g = idx.func(CP, "SignlessIntegerBinaryOperationZeroOrUnitRight.match_and_rewrite")
+    # the local bound to the constant right operand, whatever it is called: the argument of is_right_zero / is_right_unit
+    rz = [c_ for c_ in calls_in(g.node) if unparse(c_.func) == "op.is_right_zero" and len(c_.args) == 1]
+    rn = unparse(rz[0].args[0]) if rz else "rhs"
     t = "\n".join(unparse(s) for s in g.node.body)
-    if "if op.is_right_zero(rhs):\n    rewriter.replace(op, (), (op.rhs,))\nelif op.is_right_unit(rhs):\n    rewriter.replace(op, (), (op.lhs,))" in t:
+    if f"if op.is_right_zero({rn}):\n    rewriter.replace(op, (), (op.rhs,))\nelif op.is_right_unit({rn}):\n    rewriter.replace(op, (), (op.lhs,))" in t:
         r.ok(g.fq, f"{g.loc} x op zero -> zero (the rhs), x op unit -> x")
     else:
         r.fail(g.fq, Finding("C14.R4", g.fq, "zero-unit-replacement", "right zero must be replaced by op.rhs and right unit by op.lhs", g.loc))
